@@ -43,7 +43,11 @@ def prove(ob, func, hyp, goal, kind="deciding", timeout_s=10.0, model_vars=None,
     from . import solve as _solve
     saved = _solve.VIOLATION_BUDGET["left"]
     if kind in ("canary", "cover"):
+        # vacuity guards are decided on the formula with Bool-valued array predicates abstracted to opaque atoms
+        # (keyed by term identity): keeps the satisfiability query in plain arithmetic.
+        from .sym import _abstract_array_predicates
         _solve.VIOLATION_BUDGET["left"] = 1
+        hyp, goal = _abstract_array_predicates([hyp, goal])
     r = discharge(hyp, goal, timeout_s=timeout_s, model_vars=model_vars)
     if kind in ("canary", "cover"):
         _solve.VIOLATION_BUDGET["left"] = saved
